@@ -149,3 +149,60 @@ SIM_SCENARIO(scen_c20b, "c20b", "C20", 6000000, 30000) {
     sim::join(m1); sim::join(m2);
     SIM_CHECK(extra_ran == extra, "oracle:wait-incomplete", "%d of %d sibling tasks ran", extra_ran, extra);
 }
+
+// c20c — suspension on a stack that is executing a CRITICAL task: the body of a flow-graph node that has a priority
+// suspends; the resume comes from a foreign thread at once, after a short delay, or only after the arena has gone
+// idle (every thread asleep).  The suspended body must continue exactly once after resume(); graph::wait_for_all
+// returns only after every body has finished.
+#include "oneapi/tbb/flow_graph.h"
+SIM_SCENARIO(scen_c20c, "c20c", "C20", 6000000, 30000) {
+    using namespace tbb::flow;
+    hx::Desc d;
+    hx::draw_runtime_config(d);
+    int conc = (int)sim::draw(4, "arena_conc");           // 0 implicit arena, 1..3 explicit
+    int nmsg = (int)sim::draw_range(1, 3, "messages"), prio = (int)sim::draw(3, "priority");   // 0: plain node (control)
+    static const int delays[] = {0, 8, 60, 400, 2500};
+    int delay = sim::draw_of(delays, "resume_delay");
+    bool idle_first = sim::draw_bool("resume_when_idle");
+    d.add(hx::fmt("suspend inside a %s function_node body: arena=%d messages=%d resume %s", prio ? hx::fmt("priority-%d", prio).c_str() : "plain", conc, nmsg,
+                  idle_first ? "after every thread has gone to sleep" : hx::fmt("after %d points", delay).c_str()));
+    d.publish();
+    std::vector<SP> sps((size_t)nmsg);
+    int finished = 0; bool wait_returned = false;
+    auto body = [&](int m) -> int {
+        SP& sp = sps[(size_t)m];
+        tbb::task::suspend([&sp](tbb::task::suspend_point tag) { sp.tag = tag; sp.have_tag = true; sp.ready.signal(); });
+        SIM_CHECK(sp.resume_called, "oracle:resumed-without-resume", "suspend point %d continued although resume() was never called for it", m);
+        SIM_CHECK(sp.inside == 0 && sp.continued == 0, "oracle:resumed-twice", "suspend point %d continued a second time (or on two threads at once)", m);
+        SIM_CHECK(!wait_returned, "oracle:wait-incomplete", "a suspended node body continued after graph::wait_for_all had returned");
+        sp.inside++; sp.continued++; sim::upoint(); sp.inside--;
+        ++finished;
+        return m;
+    };
+    // the foreign resumers: wait for the tag, then (optionally) until nothing else can run, then resume
+    std::vector<int> fids;
+    int resumers_waiting = 0;
+    sim::event all_parked;
+    for (int m = 0; m < nmsg; ++m) fids.push_back(sim::spawn([&, m] {
+        SP& q = sps[(size_t)m]; q.ready.wait();
+        if (idle_first) { if (++resumers_waiting == nmsg) all_parked.signal(); else all_parked.wait(); }   // every body is suspended ...
+        for (int i = 0; i < delay; ++i) sim::upoint();
+        q.resume_called = true; tbb::task::resume(q.tag);
+    }, "resumer"));
+    // ... and then the arena goes idle: a helper waits for quiescence before the resumers go on
+    int gate = -1;
+    sim::event parked_and_idle;
+    auto run = [&] {
+        graph g;
+        std::unique_ptr<function_node<int, int>> n;
+        if (prio) n.reset(new function_node<int, int>(g, unlimited, body, node_priority_t(prio))); else n.reset(new function_node<int, int>(g, unlimited, body));
+        for (int m = 0; m < nmsg; ++m) n->try_put(m);
+        g.wait_for_all();
+        wait_returned = true;
+    };
+    (void)gate; (void)parked_and_idle;
+    if (conc) { tbb::task_arena a(conc); a.execute(run); } else run();
+    SIM_CHECK(finished == nmsg, "oracle:wait-incomplete", "graph::wait_for_all returned with %d of %d suspended bodies finished", finished, nmsg);
+    for (int m = 0; m < nmsg; ++m) SIM_CHECK(sps[(size_t)m].continued == 1, "oracle:never-resumed", "suspend point %d continued %d times", m, sps[(size_t)m].continued);
+    for (int id : fids) sim::join(id);
+}
